@@ -3,3 +3,4 @@ import Proofs.EarlyStop
 import Proofs.SkyEstimate
 import Proofs.RealScalar
 import Proofs.Names
+import Proofs.ProbReal
